@@ -401,6 +401,9 @@ func (m *Model) ruleREV(r *Results) {
 			r.check(good, rule, key, pos, "revSeqNo = revSeqNo + 1 in SQL", fmt.Sprintf("revSeqNo computed as %s", ex))
 		case "bound":
 			ok, why := m.revTermOK(src.Term, wu.K)
+			if ok {
+				ok, why = m.revHelperOK(src.Term, wu)
+			}
 			r.check(ok, rule, key, pos, "revSeqNo = (row's revSeqNo read in this transaction, or 0 if absent) + 1: "+src.Term.String(), "revSeqNo written is "+src.Term.String()+": "+why)
 		}
 	}
@@ -1550,6 +1553,42 @@ func (m *Model) ruleCHECKPOINT(r *Results) {
 			}
 		}
 	}
+	// the saved position replaces the caller's start value only when the caller asked to resume:
+	// wherever (mark + 1) is computed, that is reachable only over the edge "Backfill == FeedResume"
+	// (a checkpoint prefix alone says where to SAVE the position, not where to start)
+	if resumeC := m.sgConst("FeedResume"); resumeC != nil {
+		for _, f := range m.Funcs {
+			for _, b := range f.Blocks {
+				for _, ins := range b.Instrs {
+					bo, ok := ins.(*ssa.BinOp)
+					if !ok || !m.isMarkPlusOne(bo, casField, 0) {
+						continue
+					}
+					c := newCut()
+					for _, d := range m.decisions(f, topFrame(f)) {
+						cd := d.C
+						if cd.Op != token.EQL && cd.Op != token.NEQ {
+							continue
+						}
+						var other ssa.Value
+						if k, isC := stripConv(cd.Y).(*ssa.Const); isC && k.Value != nil && constant.Compare(constant.ToInt(k.Value), token.EQL, constant.ToInt(resumeC)) {
+							other = cd.X
+						} else if k, isC := stripConv(cd.X).(*ssa.Const); isC && k.Value != nil && constant.Compare(constant.ToInt(k.Value), token.EQL, constant.ToInt(resumeC)) {
+							other = cd.Y
+						}
+						if other == nil {
+							continue
+						}
+						if _, vf, isF := fieldLoad(other); !isF || vf.Name() != "Backfill" {
+							continue
+						}
+						d.cutEqual(c)
+					}
+					r.check(len(c.edges)+len(c.triples) > 0 && !entryReach(f, c)[bo.Block().Index], rule, m.declName(f)+" / saved position used only to resume", m.instrPos(bo), "(mark + 1) is computed only where Backfill == FeedResume", "the saved checkpoint position replaces the start value although the caller did not ask to resume (the test is on something else, e.g. the checkpoint prefix): a feed asked to backfill from an explicit CAS skips every document at or below the position an earlier run saved")
+				}
+			}
+		}
+	}
 	r.check(persisted, rule, "checkpoint document stores the mark", "-", "the checkpoint document stores the delivered-CAS mark", "the checkpoint document does not store the delivered-CAS mark")
 	r.check(resumed, rule, "resume from mark + 1", "-", "a resumed feed backfills from (persisted mark + 1), with an inclusive lower bound (R-BACKFILL)", "a resumed feed does not start its backfill at (persisted mark + 1)")
 	// on loop exit the checkpoint writer is reached whenever the changed flag is set
@@ -1817,4 +1856,117 @@ func (m *Model) ivHolds(cd cond, P *ssa.Parameter, maxU uint64, depth int) (ivSe
 		return nil, false
 	}
 	return ivFor(op, cst, maxU), true
+}
+
+// errorBeyondScan: the position at which a read helper makes an error of its own (not the scan's,
+// nor a translation of it), "" if its error result is only ever nil or derived from the scan.
+func (m *Model) errorBeyondScan(h *ssa.Function) string {
+	res := h.Signature.Results()
+	if res.Len() == 0 || !isErrorType(res.At(res.Len()-1).Type()) {
+		return ""
+	}
+	idx := res.Len() - 1
+	bad := ""
+	seen := map[ssa.Value]bool{}
+	var walk func(v ssa.Value, d int)
+	walk = func(v ssa.Value, d int) {
+		if v == nil || seen[v] || d > 6 {
+			return
+		}
+		seen[v] = true
+		switch x := v.(type) {
+		case *ssa.Phi:
+			for _, e := range x.Edges {
+				walk(e, d+1)
+			}
+		case *ssa.UnOp:
+			if al, ok := x.X.(*ssa.Alloc); ok && x.Op == token.MUL && al.Referrers() != nil {
+				for _, ref := range *al.Referrers() {
+					if st, ok := ref.(*ssa.Store); ok && st.Addr == ssa.Value(al) {
+						walk(st.Val, d+1)
+					}
+				}
+			}
+		case *ssa.MakeInterface:
+			if _, isConst := x.X.(*ssa.Const); !isConst {
+				bad = m.instrPos(x)
+			}
+		case *ssa.Call:
+			// a translation of an error keeps its origin
+			for _, a := range x.Common().Args {
+				if isErrorType(a.Type()) {
+					walk(a, d+1)
+				}
+			}
+		}
+	}
+	for _, ret := range returnsOf(h) {
+		if idx < len(ret.Results) {
+			walk(ret.Results[idx], 0)
+		}
+	}
+	return bad
+}
+
+func isErrorType(t types.Type) bool {
+	return types.Identical(t, types.Universe.Lookup("error").Type())
+}
+
+// revHelperOK: when the revision number is read through a helper that also fails for a row that
+// exists (it makes an error of its own: a tombstone is reported as "missing"), the write must not
+// be reachable on the helper's failure - there the count would restart from zero although the
+// row has a revision number.
+func (m *Model) revHelperOK(t *Term, wu *writeUnit) (bool, string) {
+	wcall := wu.Point
+	if wcall == nil || wcall.Parent() == nil {
+		return true, ""
+	}
+	fn := wcall.Parent()
+	helpers := map[*ssa.Function]string{}
+	var leaves func(x *Term, d int)
+	leaves = func(x *Term, d int) {
+		if x == nil || d > 6 {
+			return
+		}
+		if x.Kind == "scan" && x.Site != nil && x.Site.Fn != nil && x.Site.Fn.Parent() == nil && x.Site.Fn != fn {
+			if pos := m.errorBeyondScan(x.Site.Fn); pos != "" {
+				helpers[x.Site.Fn] = pos
+			}
+		}
+		for _, a := range x.Args {
+			leaves(a, d+1)
+		}
+	}
+	leaves(t, 0)
+	if len(helpers) == 0 {
+		return true, ""
+	}
+	c := newCut()
+	for _, iff := range allIfs(fn) {
+		cd := condOf(iff)
+		eq, ok := cd.equalEdge()
+		if !ok || !(isNilConst(cd.X) || isNilConst(cd.Y)) {
+			continue
+		}
+		other := cd.X
+		if isNilConst(cd.X) {
+			other = cd.Y
+		}
+		if isErrorType(other.Type()) {
+			c.cutEdge(iff.Block(), eq)
+		}
+	}
+	bad, why := false, ""
+	m.eachCall(fn, func(cl ssa.CallInstruction) {
+		h := cl.Common().StaticCallee()
+		pos, isHelper := helpers[h]
+		if !isHelper || bad {
+			return
+		}
+		if cl.Block() == wcall.Block() || reachableFromSuccs(cl.Block(), c)[wcall.Block().Index] {
+			bad = true
+			why = "the statement is reached when the read helper " + m.declName(h) + " fails, and that helper also fails for a row that exists (error made at " + pos + "): the count then restarts from zero and the row's revision number is lost"
+		}
+	})
+	return !bad, why
 }
